@@ -95,7 +95,7 @@ func allKinds() []*wkind {
 			targets: []target{tgtW, tgtH0},
 			keys:    []keyDef{kStr("A"), kStr("B"), kStr("In"), kStr("X"), kStr("Zz")},
 			takes:   []int{0, 1}, reads: true, dels: true,
-			vals:    []valDef{val7, val300, valStrX, valNull, litS, litIn, valH0, valH1},
+			vals:    []valDef{val7, valStrX, valNull, litS, litIn, valH0},
 			defVals: []valDef{val7, litIn},
 			goOps:   goOps,
 		}
@@ -108,7 +108,7 @@ func allKinds() []*wkind {
 	ks = append(ks, &wkind{name: "*struct", mk: func() interface{} { return &S{1, "s", In{2}} },
 		probes: []string{"A", "B", "In", "X", "Zz"}, alpha: structAlpha(sGo), depthQ: 3, depthT: 5})
 	ks = append(ks, &wkind{name: "struct-by-value", mk: func() interface{} { return &S{1, "s", In{2}} }, byValue: true,
-		probes: []string{"A", "B", "In", "X", "Zz"}, alpha: structAlpha(sGo[:1]), depthQ: 3, depthT: 4})
+		probes: []string{"A", "B", "In", "X", "Zz"}, alpha: structAlpha(sGo[:1]), depthQ: 2, depthT: 4})
 
 	// field name mappers
 	for _, mp := range []int{mapUncap, mapTag} {
@@ -155,7 +155,7 @@ func allKinds() []*wkind {
 				{"I=&In{6}", "assign-field", func(h reflect.Value) { hostOf[SP](h).I = &In{6} }},
 				{"I=In{7}", "assign-field", func(h reflect.Value) { hostOf[SP](h).I = In{7} }},
 			}},
-		depthQ: 3, depthT: 4})
+		depthQ: 2, depthT: 4})
 
 	// struct holding slice / array / map by value
 	ks = append(ks, &wkind{name: "*struct{slice,array,map}", mk: func() interface{} {
@@ -165,7 +165,7 @@ func allKinds() []*wkind {
 		alpha: alphabet{targets: []target{tgtW, tgtH0},
 			keys:  []keyDef{kStr("L"), kStr("Arr"), kStr("M"), kIdx(0), kIdx(2), kStr("k")},
 			takes: []int{0, 1}, reads: true, dels: true,
-			vals:     []valDef{val7, litA2, litA3, litMap, valH0, valNull},
+			vals:     []valDef{val7, litA2, litMap, valH0},
 			pushVals: []valDef{val7}, arrayOps: true, splices: []spliceDef{{0, 1, nil}}, lens: []int{0, 3},
 			goOps: []goOp{
 				{"L=append(L,5)", "append", func(h reflect.Value) { p := hostOf[SC](h); p.L = append(p.L, 5) }},
@@ -205,7 +205,7 @@ func allKinds() []*wkind {
 		alpha: alphabet{targets: []target{tgtW}, keys: []keyDef{kStr("a"), kStr("b"), kStr("c"), kStr("zz")},
 			takes: []int{0}, reads: true, dels: true, vals: []valDef{val7, val1p5, valStrX, valNull, litIn, valH0},
 			defVals: []valDef{val7}, goOps: mapGo()},
-		depthQ: 4, depthT: 5})
+		depthQ: 3, depthT: 5})
 	ks = append(ks, &wkind{name: "*map[string]int", mk: func() interface{} { return ptr(map[string]int{"a": 1, "b": 2}) },
 		probes: []string{"a", "b", "c"},
 		alpha: alphabet{targets: []target{tgtW}, keys: []keyDef{kStr("a"), kStr("c")},
@@ -222,7 +222,7 @@ func allKinds() []*wkind {
 		alpha: alphabet{targets: []target{tgtW, tgtH0}, keys: []keyDef{kStr("a"), kStr("b"), kStr("A"), kStr("In")},
 			takes: []int{0, 1}, reads: true, dels: true, vals: []valDef{val7, litS, litIn, valH0, valH1, valNull},
 			goOps: []goOp{{"m[a]=S{9}", "map-replace", func(h reflect.Value) { (*hostOf[map[string]S](h))["a"] = S{9, "n", In{9}} }}}},
-		depthQ: 3, depthT: 4})
+		depthQ: 2, depthT: 4})
 	ks = append(ks, &wkind{name: "map[string]*struct", mk: func() interface{} {
 		return ptr(map[string]*S{"a": {1, "s", In{2}}, "b": {3, "t", In{4}}, "n": nil})
 	}, byValue: true,
@@ -237,7 +237,7 @@ func allKinds() []*wkind {
 					}
 				}},
 			}},
-		depthQ: 3, depthT: 4})
+		depthQ: 2, depthT: 4})
 	ks = append(ks, &wkind{name: "map[int]int", mk: func() interface{} { return ptr(map[int]int{0: 1, 1: 2, -2: 3}) }, byValue: true,
 		probes: []string{"0", "1", "-2", "5"},
 		alpha: alphabet{targets: []target{tgtW}, keys: []keyDef{kIdx(0), kIdxS(1), kNeg("-2"), kStr("-2"), kIdx(5)},
@@ -314,7 +314,7 @@ func allKinds() []*wkind {
 	ks = append(ks, &wkind{name: "*[]struct", mk: mkSS, probes: []string{"0", "2", "3", "A", "In", "length"},
 		alpha: alphabet{targets: []target{tgtW, tgtH0}, keys: []keyDef{kIdx(0), kIdx(1), kIdx(3), kStr("A")},
 			takes: []int{0, 1}, reads: true, dels: true,
-			vals: []valDef{val7, litS, valH0, valH1, valNull, valWKey(kIdx(1))}, defVals: []valDef{litS},
+			vals: []valDef{val7, litS, valH0, valWKey(kIdx(1))}, defVals: []valDef{litS},
 			pushVals: []valDef{litS2, valH0}, arrayOps: true, splices: stdSplices(&litS2), lens: []int{0, 1, 5}},
 		depthQ: 3, depthT: 4})
 	// the same with nested access (h1 = h0.In) and fewer ops
@@ -366,14 +366,14 @@ func allKinds() []*wkind {
 					}
 				}},
 			}},
-		depthQ: 3, depthT: 4})
+		depthQ: 2, depthT: 4})
 
 	ks = append(ks, &wkind{name: "*[][]int", mk: func() interface{} {
 		return ptr(sliceWithSpare(sliceWithSpare(3, 4), sliceWithSpare(1), nil))
 	}, probes: []string{"0", "1", "2", "3", "length"},
 		alpha: alphabet{targets: []target{tgtW, tgtH0}, keys: []keyDef{kIdx(0), kIdx(1), kIdx(3)},
-			takes: []int{0, 1}, reads: true, dels: true, vals: []valDef{val7, litA2, valH0, valH1, valNull},
-			pushVals: []valDef{val7, litA2}, arrayOps: true, splices: []spliceDef{{0, 1, nil}}, lens: []int{0, 1},
+			takes: []int{0, 1}, reads: true, dels: true, vals: []valDef{val7, litA2, valH0},
+			pushVals: []valDef{litA2}, arrayOps: true, splices: []spliceDef{{0, 1, nil}}, lens: []int{0, 1},
 			goOps: []goOp{
 				{"s[0]=append(s[0],6)", "append", func(h reflect.Value) {
 					if s := *hostOf[[][]int](h); len(s) > 0 {
@@ -390,9 +390,9 @@ func allKinds() []*wkind {
 
 	ks = append(ks, &wkind{name: "*[][2]int", mk: func() interface{} { return ptr(sliceWithSpare([2]int{3, 4}, [2]int{1, 2})) },
 		probes: []string{"0", "1", "2", "3"},
-		alpha: alphabet{targets: []target{tgtW, tgtH0}, keys: []keyDef{kIdx(0), kIdx(1), kIdx(2), kIdx(3)},
-			takes: []int{0, 1}, reads: true, dels: true, vals: []valDef{val7, litA2, litA3, valH0, valNull},
-			pushVals: []valDef{val7, litA2}, arrayOps: true, lens: []int{1}},
+		alpha: alphabet{targets: []target{tgtW, tgtH0}, keys: []keyDef{kIdx(0), kIdx(1), kIdx(2)},
+			takes: []int{0, 1}, reads: true, dels: true, vals: []valDef{val7, litA2, litA3, valH0},
+			pushVals: []valDef{litA2}, arrayOps: true, lens: []int{1}},
 		depthQ: 3, depthT: 4})
 
 	// ---- fixed-size arrays -------------------------------------------------------------------------
@@ -468,7 +468,7 @@ func allKinds() []*wkind {
 					s[0] = 9
 				}
 			}}}},
-		depthQ: 3, depthT: 4})
+		depthQ: 2, depthT: 4})
 
 	for _, k := range ks {
 		k.ops = buildOps(&k.alpha)
